@@ -12,7 +12,7 @@ def funnel_conc_job(tag, n_quick=1500, n_thorough=60000):
             "why": "the Lean-defined property monitor fails on the event log of the real funnel.Worker running fan-out branches "
                    "concurrently (real goroutine interleavings, GOMAXPROCS unrestricted, random yields)"}
 
-def funnel_shared_job(tag, n_quick=600, n_thorough=30000):
+def funnel_shared_job(tag, n_quick=2500, n_thorough=60000):
     return {"harness": "h_funnel", "comp": "funnelshared", "driver": "funnelmon", "n_quick": n_quick, "n_thorough": n_thorough,
             "fail_tag": tag,
             "why": "the Lean-defined property monitor fails, for one of the sources, on the event log of 2-3 real funnel.Workers "
